@@ -479,7 +479,34 @@ namespace
             std::string bl = bad_list(m.wm, 0, false, nbad, ncheck);
             auto&       w  = world();
             long        c0 = w.up_calls, d0 = w.up_frees;
-            std::string r  = classify([&] { cur->unwind(m.idx); });
+            int         raii = static_cast<int>(c.arg(1, -1)); // uwr k mode: through memory_stack_raii_unwind
+            if (c.op == "rd")
+            {
+                // the kept unwinder dies: it unwinds to the marker it was made for
+                if (kept_mark < 0 || static_cast<std::size_t>(kept_mark) >= marks.size())
+                    return;
+                k = static_cast<std::size_t>(kept_mark);
+                m = marks[k];
+                bl = bad_list(m.wm, 0, false, nbad, ncheck);
+            }
+            std::string r = classify(
+                [&]
+                {
+                    if (c.op == "rd")
+                        cur->drop_raii();
+                    else if (c.op == "uwr")
+                        cur->unwind_raii(m.idx, raii < 0 ? 0 : raii);
+                    else
+                        cur->unwind(m.idx);
+                });
+            if (c.op == "rd")
+                kept_mark = -1;
+            else if (kept_mark > static_cast<long>(k))
+            {
+                // the marker the kept unwinder refers to is gone: defuse it (unwinding above the top is not allowed)
+                cur->drop_raii_released();
+                kept_mark = -1;
+            }
             live.erase(std::remove_if(live.begin(), live.end(),
                                       [&](const Handle& h) { return h.id > m.wm; }),
                        live.end());
@@ -496,6 +523,16 @@ namespace
                 .ic("ncap", s.ncap)
                 .i("ups", w.up_calls - c0)
                 .i("ufs", w.up_frees - d0);
+        }
+
+        long kept_mark = -1;
+        void do_keep(const Cmd& c)
+        {
+            if (!cur->has_markers() || marks.empty() || kept_mark >= 0)
+                return;
+            std::size_t k = static_cast<std::size_t>(c.arg(0)) % marks.size();
+            if (cur->keep_raii(marks[k].idx))
+                kept_mark = static_cast<long>(k);
         }
 
         void do_cmp()
@@ -554,6 +591,12 @@ namespace
 
         void do_move(const Cmd& c, bool assign)
         {
+            if (kept_mark >= 0)
+            {
+                // an unwinder refers to the stack object that is about to be moved from: give it up first
+                cur->drop_raii_released();
+                kept_mark = -1;
+            }
             bool  hi = c.arg(0) != 0;
             auto& w  = world();
             if (!assign)
@@ -679,8 +722,10 @@ namespace
                         dealloc(c, true, true);
                     else if (op == "mk")
                         do_mark();
-                    else if (op == "uw")
+                    else if (op == "uw" || op == "uwr" || op == "rd")
                         do_unwind(c);
+                    else if (op == "rk")
+                        do_keep(c);
                     else if (op == "cmp")
                         do_cmp();
                     else if (op == "sh")
